@@ -228,6 +228,8 @@ pub struct World {
     pub kf2_sig: HashSet<(usize, usize)>,
     pub quiet: bool,
     pub known_seen: HashSet<u64>,
+    /// the most recent datagrams that were delivered (for the hostile-input engine)
+    pub history: Vec<Arc<Vec<u8>>>,
 }
 
 fn vh(s: &str) -> u64 {
@@ -261,6 +263,7 @@ impl World {
             kf2_sig: HashSet::new(),
             quiet: false,
             known_seen: HashSet::new(),
+            history: Vec::new(),
         };
         for _ in 0..n {
             w.slots.push(Slot {
@@ -1122,6 +1125,10 @@ impl World {
             Ok((m, _, _)) => m,
             Err(_) => return None, // already reported at emission
         };
+        if self.history.len() >= 64 {
+            self.history.remove(0);
+        }
+        self.history.push(Arc::new(bytes.to_vec()));
         let cb0 = self.slots[to].cb.load(Ordering::SeqCst);
         let cc = self.slots[to].cc.as_mut().unwrap();
         let reply = match catch(|| cc.verif_process_message(msg)) {
